@@ -526,3 +526,136 @@ Section Swap.
       ring.
   Qed.
 End Swap.
+
+(* ------------------------------------------------------------------ *)
+(* 5. transfer to the complex numbers through the evaluation morphism  *)
+(* ------------------------------------------------------------------ *)
+Section Transfer.
+  Context {K L : Type} (o : ops K) (p : ops L) (f : K -> L) (H : RingHom o p f).
+
+  Lemma suml_hom {A} (l : list A) (g : A -> K) : f (suml o l g) = suml p l (fun a => f (g a)).
+  Proof.
+    induction l as [|a l IH]; simpl; [apply (rh_0 _ _ _ H)|].
+    rewrite (rh_add _ _ _ H), IH. reflexivity.
+  Qed.
+
+  (* a ring homomorphism commutes with the permanent *)
+  Lemma perm_ml_hom (U : @mat K) xs ys :
+    f (perm_ml o U xs ys) = perm_ml p (fun i j => f (U i j)) xs ys.
+  Proof.
+    revert xs. induction ys as [|y ys IH]; intros xs; simpl.
+    - destruct xs; [apply (rh_1 _ _ _ H)|apply (rh_0 _ _ _ H)].
+    - rewrite suml_hom. induction (selects xs) as [|q l IHl]; simpl; [reflexivity|].
+      rewrite (rh_mul _ _ _ H), IH, IHl. reflexivity.
+  Qed.
+End Transfer.
+
+(* the gate seen through a homomorphism f : K -> R of the reals of the number field:
+   U_full becomes the complex matrix (ev_cplx f) o U, amplitudes are taken over C = R*R *)
+Section Image.
+  Context {K : Type} (o : ops K) (f : K -> R) (H : RingHom o rops f).
+  Let F := ev_cplx f.
+  Let HF : RingHom (cplx o) cops F := ev_cplx_hom o f H.
+
+  Definition gate_image (gt : @gate K) : @gate R :=
+    mkGate (mkCirc (c_n (g_circ gt)) [] (c_in (g_circ gt)) (c_out (g_circ gt))
+                   (c_xin (g_circ gt)) (c_xout (g_circ gt)) (c_int (g_circ gt)))
+           (g_dim gt) (fun i j => F (g_U gt i j)).
+
+  Lemma sim_amp_image gt i x a n :
+    sim_amp o gt i x = Ok (a, n) -> sim_amp rops (gate_image gt) i x = Ok (F a, n).
+  Proof.
+    unfold sim_amp. cbn [gate_image g_circ c_in c_out g_U].
+    destruct (add_heralds_to_state i (hdz (c_in (g_circ gt)))) as [fi|]; [|discriminate].
+    destruct (add_heralds_to_state x (hdz (c_out (g_circ gt)))) as [fx|]; [|discriminate].
+    cbn [bind]. intros E. injection E as <- <-. unfold amp_perm.
+    rewrite (perm_ml_hom (cplx o) cops F HF). reflexivity.
+  Qed.
+End Image.
+
+
+Section SpecHom.
+  Context {K L : Type} (t : ops K) (u : ops L) (F : K -> L) (HF : RingHom t u F).
+  Lemma delta_hom a b : F (delta t a b) = delta u a b.
+  Proof. unfold delta. destruct (bits_eqb a b); [apply (rh_1 _ _ _ HF)|apply (rh_0 _ _ _ HF)]. Qed.
+  Lemma spec_CZ_hom b' b : F (spec_CZ t b' b) = spec_CZ u b' b.
+  Proof. unfold spec_CZ. destruct (bit b 0 && bit b 1); rewrite ?(rh_opp _ _ _ HF), delta_hom; reflexivity. Qed.
+  Lemma spec_CNOT_hom tq b' b : F (spec_CNOT t tq b' b) = spec_CNOT u tq b' b.
+  Proof. unfold spec_CNOT. apply delta_hom. Qed.
+  Lemma spec_CCZ_hom b' b : F (spec_CCZ t b' b) = spec_CCZ u b' b.
+  Proof. unfold spec_CCZ. destruct (bit b 0 && bit b 1 && bit b 2); rewrite ?(rh_opp _ _ _ HF), delta_hom; reflexivity. Qed.
+  Lemma spec_CCNOT_hom tq b' b : F (spec_CCNOT t tq b' b) = spec_CCNOT u tq b' b.
+  Proof. unfold spec_CCNOT. apply delta_hom. Qed.
+End SpecHom.
+
+Section ComplexStatement.
+  Context {K : Type} (o : ops K) (f : K -> R) (H : RingHom o rops f).
+  Let F := ev_cplx f.
+  Let HF : RingHom (cplx o) cops F := ev_cplx_hom o f H.
+
+  (* the statement over the complex numbers: |k|^2 is the real number re^2 + im^2 *)
+  Definition acts_as_complex (g : res (@gate K)) (nq : nat) (norm : Z)
+             (MC : list bool -> list bool -> R * R) : Prop :=
+    exists gt (k : R * R), g = Ok gt /\
+      (IZR norm * (fst k * fst k + snd k * snd k) = 1)%R /\
+      forall b b', In b (bits nq) -> In b' (bits nq) ->
+        sim_amp rops (gate_image f gt) (dr b) (dr b') = Ok (kmul cops k (MC b' b), 1).
+  Definition heralded_complex (g : res (@gate K)) (nq : nat) (norm : Z)
+             (MC : list bool -> list bool -> R * R) : Prop :=
+    exists gt (k : R * R), g = Ok gt /\
+      (IZR norm * (fst k * fst k + snd k * snd k) = 1)%R /\
+      (forall b b', In b (bits nq) -> In b' (bits nq) ->
+         sim_amp rops (gate_image f gt) (dr b) (dr b') = Ok (kmul cops k (MC b' b), 1)) /\
+      (forall b t, In b (bits nq) -> In t (zstates (2 * nq) nq) -> undr t = None ->
+         exists n, sim_amp rops (gate_image f gt) (dr b) t = Ok ((0%R, 0%R), n)).
+
+  Lemma norm_complex norm k :
+    kmul (cplx o) (kofZ (cplx o) norm) (kmul (cplx o) k (kconj (cplx o) k)) = k1 (cplx o) ->
+    (IZR norm * (fst (F k) * fst (F k) + snd (F k) * snd (F k)) = 1)%R.
+  Proof.
+    intros E. apply (f_equal F) in E.
+    rewrite (rh_mul _ _ _ HF), (rh_mul _ _ _ HF), (rh_conj _ _ _ HF), (rh_ofZ _ _ _ HF), (rh_1 _ _ _ HF) in E.
+    destruct (F k) as [x y]. simpl in E. unfold cmul, cconj in E. simpl in E.
+    injection E as E1 _. simpl. lra.
+  Qed.
+
+  Lemma complex_of_acts g nq norm M MC :
+    (forall b' b, F (M b' b) = MC b' b) -> acts_as o g nq norm M -> acts_as_complex g nq norm MC.
+  Proof.
+    intros HM [gt [k [Hg [Hk Ht]]]]. exists gt, (F k). split; [exact Hg|].
+    split; [apply norm_complex; exact Hk|].
+    intros b b' Hb Hb'. rewrite (sim_amp_image o f H gt _ _ _ _ (Ht b b' Hb Hb')).
+    fold F. rewrite (rh_mul _ _ _ HF), HM. reflexivity.
+  Qed.
+
+  Lemma complex_of_heralded g nq norm M MC :
+    (forall b' b, F (M b' b) = MC b' b) -> heralded_acts o g nq norm M -> heralded_complex g nq norm MC.
+  Proof.
+    intros HM [gt [k [Hg [Hk [Ht Hl]]]]]. exists gt, (F k). split; [exact Hg|].
+    split; [apply norm_complex; exact Hk|]. split.
+    - intros b b' Hb Hb'. rewrite (sim_amp_image o f H gt _ _ _ _ (Ht b b' Hb Hb')).
+      fold F. rewrite (rh_mul _ _ _ HF), HM. reflexivity.
+    - intros b t Hb Ht' Hu. destruct (Hl b t Hb Ht' Hu) as [n Hn]. exists n.
+      rewrite (sim_amp_image o f H gt _ _ _ _ Hn). fold F. rewrite (rh_0 _ _ _ HF). reflexivity.
+  Qed.
+End ComplexStatement.
+
+(* the gates over the complex numbers *)
+Lemma CZ_complex : acts_as_complex evA gA_CZ 2 9 (spec_CZ cops).
+Proof. exact (complex_of_acts oA evA evA_hom _ _ _ _ _ (spec_CZ_hom cA cops evCA evCA_hom) CZ_acts). Qed.
+Lemma CNOT_complex tq : In tq [0; 1]%Z -> acts_as_complex evA (gA_CNOT tq) 2 9 (spec_CNOT cops (Z.to_nat tq)).
+Proof.
+  intros Ht. exact (complex_of_acts oA evA evA_hom _ _ _ _ _ (spec_CNOT_hom cA cops evCA evCA_hom _) (CNOT_acts tq Ht)).
+Qed.
+Lemma CCZ_complex : acts_as_complex evA gA_CCZ 3 72 (spec_CCZ cops).
+Proof. exact (complex_of_acts oA evA evA_hom _ _ _ _ _ (spec_CCZ_hom cA cops evCA evCA_hom) CCZ_acts). Qed.
+Lemma CCNOT_complex tq : In tq [0; 1; 2]%Z -> acts_as_complex evA (gA_CCNOT tq) 3 72 (spec_CCNOT cops (Z.to_nat tq)).
+Proof.
+  intros Ht. exact (complex_of_acts oA evA evA_hom _ _ _ _ _ (spec_CCNOT_hom cA cops evCA evCA_hom _) (CCNOT_acts tq Ht)).
+Qed.
+Lemma CZH_complex : heralded_complex evB gB_CZH 2 16 (spec_CZ cops).
+Proof. exact (complex_of_heralded oB evB evB_hom _ _ _ _ _ (spec_CZ_hom cB cops evCB evCB_hom) CZH_full). Qed.
+Lemma CNOTH_complex tq : In tq [0; 1]%Z -> heralded_complex evB (gB_CNOTH tq) 2 16 (spec_CNOT cops (Z.to_nat tq)).
+Proof.
+  intros Ht. exact (complex_of_heralded oB evB evB_hom _ _ _ _ _ (spec_CNOT_hom cB cops evCB evCB_hom _) (CNOTH_full tq Ht)).
+Qed.
